@@ -857,7 +857,7 @@ def _main(args, tier, seed, sw):
 
 
 def explore(tier, seed, args, sw):
-    nb = args.batches or {"quick": 32, "thorough": 900}[tier]
+    nb = args.batches or {"quick": 24, "thorough": 900}[tier]
     workers = int(os.environ.get("VERIF_WORKERS", "0")) or \
         min(16, os.cpu_count() or 1)
     batches = [gen_batch(seed, b) for b in range(nb)] + [scenario_batch()]
